@@ -1,5 +1,5 @@
 #![allow(unused)]
-use vstd::prelude::*;
+use ::vstd::prelude::*;
 //@quote-macros
 //@include prelude/tokens.rs
 //@include prelude/deps.rs
